@@ -78,12 +78,13 @@ Feed(mm, s) ==
          THEN [mm EXCEPT !.out = Append(mm.out, mm.cur), !.cur = <<>>, !.st = "init"]
          ELSE [mm EXCEPT !.ckey = s, !.st = "value"]
 
-RECURSIVE Drain(_)
+RECURSIVE Drain(_), DrainL(_, _, _)
+(* (operator parameters are evaluated once by TLC, LET definitions at every use: hence the helper) *)
+DrainL(mm, n, len) ==
+    IF len > Limit(mm.st) THEN [mm EXCEPT !.closed = TRUE]
+    ELSE IF n < 2 + len THEN mm
+    ELSE Drain(Feed([mm EXCEPT !.buf = RDrop(mm.buf, 2 + len)], Norm(RTake(RDrop(mm.buf, 2), len))))
 Drain(mm) ==
     IF mm.closed \/ RLen(mm.buf) < 2 THEN mm
-    ELSE LET len == RByte(mm.buf, 1) * 256 + RByte(mm.buf, 2) IN
-         IF len > Limit(mm.st) THEN [mm EXCEPT !.closed = TRUE]
-         ELSE IF RLen(mm.buf) < 2 + len THEN mm
-         ELSE Drain(Feed([mm EXCEPT !.buf = RDrop(mm.buf, 2 + len)], Norm(RTake(RDrop(mm.buf, 2), len))))
-
+    ELSE DrainL(mm, RLen(mm.buf), RByte(mm.buf, 1) * 256 + RByte(mm.buf, 2))
 =============================================================================
